@@ -268,7 +268,10 @@ example : exponentiateGt Cyclotomic.gtGen (xadic (2 ^ 256 - 1)) = Cyclotomic.gtG
 example : IsGT (final_exponentiation Cyclotomic.sample) := final_exponentiation_isGT _ (by decide +kernel)
 
 /-- an element of the cyclotomic subgroup need not be in GT (the cofactor `Φ₁₂(q)/r` is non-trivial) -/
-example : IsCyclotomic (Fq12.map_to_cyclotomic Cyclotomic.sample) :=
-  isCyclotomic_map_to_cyclotomic_all _
+example : IsCyclotomic (Fq12.map_to_cyclotomic Cyclotomic.sample) ∧ ¬ IsGT (Fq12.map_to_cyclotomic Cyclotomic.sample) :=
+  ⟨isCyclotomic_map_to_cyclotomic_all _, by decide +kernel⟩
+
+/-- the hypothesis of `map_to_cyclotomic_eq_pow` / `final_exponentiation_isGT` -/
+example : Cyclotomic.sample ≠ 0 := by decide +kernel
 
 end Jedi.GtCapstone
